@@ -469,7 +469,7 @@ def plan_docs(ctx, corpus, rnd):
                 if w:
                     docs.append((ci, _doc_of(c, w[0], w[1], 2)))
         else:
-            plans = [(5, 2)] if ctx.quick else [(6, 2), (6, 2), (6, 2), (4, 3)]
+            plans = [(5, 2)] if ctx.quick else [(6, 2), (6, 2), (4, 3)]
             if not ctx.quick and n <= 40:
                 docs.append((ci, _doc_of(c, 1, n, 1)))
             for w, maxe in plans:
@@ -706,14 +706,14 @@ def _farm_child(conn, scratch):
         conn.send(("done", None))
 
 
-def run_farm(ctx, cases, batch=40):
+def run_farm(ctx, cases, batch=25):
     """Load every case in worker processes; a worker that does not answer within the budget (stuck in C code,
     where the alarm cannot fire) is killed and the case in flight is recorded as a hang."""
     from multiprocessing.connection import wait
     scratch = ctx.sub("load")
     results = {}
     pending = list(range(len(cases)))
-    pending.reverse()
+    random.Random(ctx.seed + 13).shuffle(pending)  # neighbouring mutations fail alike: spread slow cases over the workers
     workers = {}
 
     def spawn():
@@ -974,11 +974,12 @@ def run(ctx):
             "rule": "layout: every edit script TLC (MC_Layout, mode emit) reaches on the line abstraction of a real file "
                     "(whole file when <= 14 lines, seeded windows of longer files; <= %s edits) plus whole-file saturation "
                     "scripts, applied to the real text and parsed with parse_colang_file; distinct = distinct (file, script). "
-                    "error path: every 1-char deletion, truncation and %s insertion from a 14-symbol alphabet for %d seed "
-                    "programs per version, plus seeded token soups, each loaded with RailsConfig.from_path; distinct = "
+                    "error path: every 1-char deletion, truncation and %s insertion from a 14-symbol alphabet for up to %d seed "
+                    "programs (<= 12 lines) per version, plus seeded token soups, each loaded with RailsConfig.from_path; distinct = "
                     "distinct (version, text), non-trivial = the load did not succeed" % (
                         "2 (1 for files of 11-14 lines)" if ctx.quick else "3 (2 for files/windows of more than 7 lines)",
-                        "a seeded 25% of every" if ctx.quick else "every", 5 if ctx.quick else 40),
+                        "a seeded 25% of every" if ctx.quick else "every",
+                        max(len(v) for v in used_seeds.values())),
             "samples": samples,
             "states": design["states"] + estates, "transitions": design["transitions"] + etrans,
             "traces_validated_against_impl": len(layout_cases) + len(ecases),
